@@ -124,6 +124,33 @@ def m_partial_eq(ex, st, callee, args, dest_ty):
     return g()
 
 
+def m_option_eq(ex, st, callee, args, dest_ty):
+    """<Option<T> as PartialEq>::eq / ne: both None, or both Some with payloads equal by T's own eq (executed / modelled as any other call)"""
+    m = re.match(r"^<(?:std::option::)?Option<(.*)> as PartialEq>::(eq|ne)$", callee, re.S)
+    inner, neg = m.group(1), m.group(2) == "ne"
+    a, b = deref(ex, st, args[0]), deref(ex, st, args[1])
+    if not (isinstance(a, En) and isinstance(b, En)):
+        return NotImplemented
+
+    def g():
+        out = lambda x: mk_bool(z3.simplify(z3.Not(x) if neg else x))
+        for st2 in ex.branch(st, z3.And(a.disc == 0, b.disc == 0)):
+            yield st2, out(z3.BoolVal(True))
+        for st2 in ex.branch(st, a.disc != b.disc):
+            yield st2, out(z3.BoolVal(False))
+        if "Some" in a.alts and "Some" in b.alts:
+            for st2 in ex.branch(st, z3.And(a.disc == 1, b.disc == 1)):
+                x, y = a.alts["Some"][0], b.alts["Some"][0]
+                rx = x if isinstance(x, Ref) else Ref(ex.new_cell(st2, x, "eq"))
+                ry = y if isinstance(y, Ref) else Ref(ex.new_cell(st2, y, "eq"))
+                for o in ex.call(st2, "<%s as PartialEq>::eq" % inner, [rx, ry], "bool"):
+                    if o.kind != "return":
+                        yield o
+                    else:
+                        yield o.st, out(o.value.e)
+    return g()
+
+
 # ----------------------------------------------------------------------------- Option / Result
 
 
@@ -1081,6 +1108,7 @@ BASE_MODELS = [
     (R(r" as Clone>::clone$| as ToOwned>::to_owned$"), m_clone),
     (R(r"^<str as ToString>::to_string$|^<String as ToString>::to_string$|^<str as ToOwned>::to_owned$|^<String as From<&str>>::from$|^must_use::<.*>$|^<&str as Into<String>>::into$|^<&str as ToString>::to_string$"), m_clone),
     (R(r" as PartialEq(<.*>)?>::(eq|ne)$"), m_partial_eq),
+    (R(r"^<(std::option::)?Option<.*> as PartialEq>::(eq|ne)$"), m_option_eq),
     (R(r"^<&.+ as (PartialEq|PartialOrd|Ord)(<&.*>)?>::\w+$"), m_ref_forward),
     (R(r"^<[A-Z]\w* as PartialEq>::ne$"), m_ne_via_eq),
     (R(r"^<Box<.*> as PartialEq>::(eq|ne)$"), m_box_eq),
